@@ -54,7 +54,7 @@ Print Assumptions C26_refuted_final_symlink.
 (** What does hold, for every allow list, every file system state and every
     request: if no component of the (cleaned) requested path is a symbolic
     link — and the path text has no ".." for the kernel to resolve
-    physically, i.e. its raw components are the cleaned ones — then every
+    physically, i.e. its raw components are the cleaned ones (no "." either) — then every
     object the request touches matches the allow list (it is the requested
     object or lies below it, and the allow rule is closed under descending).
     The one exception, listed explicitly: directories that MkdirAll creates
@@ -64,7 +64,7 @@ Theorem C26_touched_allowed_without_links : forall allowed fs r cs,
   inodes_fresh fs ->
   validate_path allowed (request_path r) = VOk cs ->
   no_links_on fs cs ->
-  split_path (request_path r) = cs ->
+  raw_todo (request_path r) = cs -> no_dot cs ->
   forall p, In p (o_touched (exec allowed fs r)) ->
     matches_allow allowed p = true \/
     (exists path data, r = RUpload path data /\ In p (changed_paths fs (fst (mkdir_all fs (parent cs))))).
@@ -77,7 +77,7 @@ Example C26_nonvacuous :
   (let fs := build_fs [IDir "allowed"; IDir "allowed/sub"; IFile "allowed/sub/deep.txt" "DEEP"] in
    let r := RDownload "/allowed/sub/deep.txt" in
    validate_path ["/allowed"] (request_path r) = VOk ["allowed"; "sub"; "deep.txt"] /\
-   split_path (request_path r) = ["allowed"; "sub"; "deep.txt"] /\
+   raw_todo (request_path r) = ["allowed"; "sub"; "deep.txt"] /\
    o_code (exec ["/allowed"] fs r) = 0%N /\ o_payload (exec ["/allowed"] fs r) = "DEEP" /\
    o_touched (exec ["/allowed"] fs r) = [["allowed"; "sub"; "deep.txt"]; ["allowed"; "sub"; "deep.txt"]]).
 Proof. exact (conj c26_ex_hypotheses c26_nonvacuous_proof). Qed.
